@@ -1,6 +1,35 @@
 (** Property C29 — subtyping follows declared variance.
-    Only the property theorems; models and proofs are in Infer/{Table,Unify,Variance}.v. *)
-From Chalk Require Import Ir.Syntax Infer.Table Infer.Unify Infer.Variance.
+    Only the property theorems; models and proofs are in Infer/{Table,Unify,Variance,Closed}.v.
+
+    [cfrag arity t]: [t] is a variable-free type of the property's fragment — references,
+    mutable references, raw pointers, slices, tuples, ADTs (with [arity id] arguments; their
+    declared variances are [adt_var id]), fn pointers without binders, scalars, placeholders;
+    lifetimes ['static], placeholders, erased.  [erase] replaces every lifetime by ['static].
+    [variance_constraints] is the independent structural definition of the requirements
+    dictated by the variance of each position (Infer/Variance.v); a requirement [(x, y)] reads
+    [x: y].  Sets of goals are compared with [seteq] (mutual inclusion). *)
+From Chalk Require Import Ir.Syntax Infer.Table Infer.Unify Infer.Variance Infer.Closed.
+
+(** Covariant relate of closed types succeeds iff the lifetime-erased structures agree. *)
+Theorem relate_cov_shape : forall adt_var fn_var arity fuel a b t,
+  cfrag arity a = true -> cfrag arity b = true -> (depth a <= fuel)%nat ->
+  ((exists gs t', relate adt_var fn_var fuel Covariant a b t = (Done gs, t')) <-> erase a = erase b).
+Proof. exact relate_cov_shape_lemma. Qed.
+Check relate_cov_shape : forall adt_var fn_var arity fuel a b t,
+  cfrag arity a = true -> cfrag arity b = true -> (depth a <= fuel)%nat ->
+  ((exists gs t', relate adt_var fn_var fuel Covariant a b t = (Done gs, t')) <-> erase a = erase b).
+
+(** ... and then the table is unchanged and the returned goals are exactly the outlives
+    requirements dictated by composing variance down each position. *)
+Theorem relate_cov_constraints : forall adt_var fn_var arity fuel a b t gs t',
+  cfrag arity a = true -> cfrag arity b = true -> (depth a <= fuel)%nat ->
+  relate adt_var fn_var fuel Covariant a b t = (Done gs, t') ->
+  t' = t /\ seteq gs (map goal_of_requirement (variance_constraints adt_var fn_var Covariant a b)).
+Proof. exact relate_cov_constraints_lemma. Qed.
+Check relate_cov_constraints : forall adt_var fn_var arity fuel a b t gs t',
+  cfrag arity a = true -> cfrag arity b = true -> (depth a <= fuel)%nat ->
+  relate adt_var fn_var fuel Covariant a b t = (Done gs, t') ->
+  t' = t /\ seteq gs (map goal_of_requirement (variance_constraints adt_var fn_var Covariant a b)).
 
 (** Composition of variances is associative. *)
 Theorem xform_assoc : forall a b c, xform (xform a b) c = xform a (xform b c).
